@@ -136,6 +136,15 @@ func c14Pair(c *Ctx, sa, sb []int, dt ref.DType) {
 		c.Nontrivial(desc)
 	}
 	want, werr := ref.BroadcastShape(sa, sb)
+	// other contents for the same tensor objects (second call after an in-place update)
+	a2, b2 := a.Clone(), b.Clone()
+	for _, t := range []*ref.T{a2, b2} {
+		if n := len(t.Bits); n > 1 {
+			first := t.Bits[0]
+			copy(t.Bits, t.Bits[1:])
+			t.Bits[n-1] = first
+		}
+	}
 
 	// multidirectional
 	{
@@ -166,6 +175,7 @@ func c14Pair(c *Ctx, sa, sb []int, dt ref.DType) {
 		if ok, what := fb.Equal(mon.Fp(tb)); !ok {
 			c.Violation("multidir:source-modified", "MultidirectionalBroadcast(%v, %v) modified its second source: %s", sa, sb, what)
 		}
+		c14Again(c, "multidir", ta, tb, a2, b2, sa, sb, want, werr == nil, false)
 	}
 	// unidirectional (B -> A)
 	{
@@ -196,8 +206,40 @@ func c14Pair(c *Ctx, sa, sb []int, dt ref.DType) {
 		if ok, what := fb.Equal(mon.Fp(tb)); !ok {
 			c.Violation("unidir:source-modified", "UnidirectionalBroadcast(%v, %v) modified its second operand: %s", sa, sb, what)
 		}
+		c14Again(c, "unidir", ta, tb, a2, b2, sa, sb, sa, ref.UniBroadcastable(sa, sb), true)
 	}
 	if c.Idx%97 == 0 && len(sa) > 0 && len(sb) > 0 && !ref.ShapeEq(sa, sb) {
 		c.Sample(map[string]any{"A": sa, "B": sb, "dtype": dt.String(), "multidir_expected_shape": want, "compatible": werr == nil, "unidir_compatible": ref.UniBroadcastable(sa, sb)})
+	}
+}
+
+// c14Again: the caller overwrites the contents of the two source tensors in
+// place and broadcasts the same tensor objects again; the broadcast operands
+// must hold the CURRENT source elements.
+func c14Again(c *Ctx, which string, ta, tb tensor.Tensor, a2, b2 *ref.T, sa, sb, shape []int, compatible, uni bool) {
+	if !compatible || c.Idx%2 == 1 || a2.DT == ref.Str || len(a2.Bits) == 0 || len(b2.Bits) == 0 {
+		return
+	}
+	if !mon.Overwrite(ta, a2) || !mon.Overwrite(tb, b2) {
+		return
+	}
+	o := mon.Capture(nil, func() ([]tensor.Tensor, error) {
+		var x, y tensor.Tensor
+		var err error
+		if uni {
+			x, y, err = ops.UnidirectionalBroadcast(ta, tb)
+		} else {
+			x, y, err = ops.MultidirectionalBroadcast(ta, tb)
+		}
+		if err != nil {
+			return nil, err
+		}
+		return []tensor.Tensor{x, y}, nil
+	})
+	c.Eval(1)
+	c.Count(which+":second-call-after-in-place-update", 1)
+	exp := Expect{Kind: MustEqual, Mode: CmpBits, Want: Exact(ref.BroadcastTo(a2, shape), ref.BroadcastTo(b2, shape))}
+	if v := Judge(exp, o); !v.OK {
+		c.Violation(which+":stale-after-in-place-update:"+v.Kind, "broadcasting the same tensor objects (%v, %v) again after their contents were overwritten in place: %s", sa, sb, trunc(v.Detail, 400))
 	}
 }
